@@ -88,6 +88,29 @@ def _replay(ctx, drv):
     ctx.cov["samples"].append(case if case.get("k") != "real" else {"k": "real", "fracs": case["fracs"], "qs": case["qs"][:3]})
 
 
+def timeprune_e2e_stage(ctx, prefix, quick, what_filter=None, num=None):
+    """TimePrune.tla's real stores (fractions with minute-scale time structure, late documents, queries cutting them)
+    answered end to end; used by the checks of other properties whose statements also depend on time-range pruning."""
+    tdrv = vlib.build_driver("timeprune")
+    tf = os.path.join(ctx.scratch, "tp-%s.jsonl" % prefix.replace(":", "_"))
+    r = vlib.run_tlc(ctx, "TimePrune.tla", "TimePrune_real.cfg", case_file=tf, heap="3g", timeout=3400, workers=1,
+                     simulate="num=%d" % (num or (120 if quick else 600)), depth=7)
+    if r.violated:
+        raise vlib.Infra("TLC: %s violated in TimePrune.tla" % r.violated)
+    vlib.require_tlc_ok(r, "TimePrune real (for %s)" % prefix)
+    mism, summ, _ = vlib.run_cases(ctx, tdrv, ["-mode", "e2e", "-workers", str(vlib.NCPU)], tf, label=prefix.replace(":", "-") + "-time", timeout=3000, chunk=500)
+    for m in mism:
+        if m.get("level") == "conformance":
+            continue
+        w = str(m.get("what", ""))
+        if what_filter and not what_filter(w):
+            continue
+        what = re.sub(r"\d+", "N", w)
+        ctx.violation("%s:time:%s:%s" % (prefix, m.get("path", m.get("form")), what[:48]), m,
+                      what="a store whose fractions are consulted / skipped by their time range answers differently from the reference over all documents: " + w[:160])
+    return summ
+
+
 def run(ctx):
     drv = vlib.build_driver("timeprune")
     if getattr(ctx, "replay", None):
